@@ -18,6 +18,7 @@
    (Model/Wrk.v, event `Call svc cid`, C07); `FromStream::from_mio` (fd hand-over) is exercised by the
    harness, not modelled. *)
 From Coq Require Import List ZArith NArith Bool Permutation.
+From AN Require Import Model.SrvE2E Proofs.SrvPauseB Proofs.SrvStrand Proofs.SrvE2EFacts.
 From AN Require Import Model.Srv Model.Builder.
 From AN Require Import Proofs.SrvConserve Proofs.SrvConserve2 Proofs.SrvConserve3 Proofs.SrvConserve4 Proofs.BuilderFacts.
 From AN Require Proofs.SrvInv Proofs.SrvFault.
@@ -192,6 +193,22 @@ Example C01_example_builder :
   build 0 [Listen true; Bind 3 (Some 1)] empty = None.
 Proof. vm_compute. repeat split. Qed.
 
+(* The oracle of the end-to-end stream (real ServerBuilder / Server / threads, compared after every scenario operation with the
+   settled model, Model/SrvE2E.v) computes nothing but states of ordinary runs: for every scenario there is a script of
+   Model/Srv.v operations, free of spurious WouldBlocks, whose run is exactly the oracle's state — so C01_conservation,
+   C01_once, C01_routing and every other all-scripts theorem of the server group speak about the states the real server is
+   compared with. *)
+Theorem C01_e2e_oracle_reachable : forall (L : Z) W kinds ops,
+  exists os, forallb nwb_op os = true /\ e2e_run L (init W kinds) 1%N ops = run L (init W kinds) os.
+Proof. exact e2e_states_are_reachable. Qed.
+
+(* non-vacuity: two workers, limit 1; a connection whose service call panics kills worker 1's generation, the next connection's
+   dispatch discovers it, the replacement (generation 2, same index 1) is in the rotation afterwards *)
+Example C01_e2e_example :
+  let st := e2e_run 1 (init 2 [false]) 1%N [XConnect 0; XKill 0; XConnect 0; XFinish 1%N; XConnect 0] in
+  err st = None /\ map w_open (ws st) = [true; false; true] /\ map w_idx (ws st) = [0%N; 1%N; 1%N] /\ handles st = [0; 2].
+Proof. vm_compute. repeat split. Qed.
+
 Print Assumptions C01_conservation.
 Print Assumptions C01_conservation_wf.
 Print Assumptions C01_conservation_exact.
@@ -202,3 +219,4 @@ Print Assumptions C01_no_kill_no_loss.
 Print Assumptions C01_once.
 Print Assumptions C01_routing.
 Print Assumptions C01_builder_tokens.
+Print Assumptions C01_e2e_oracle_reachable.
